@@ -130,8 +130,9 @@ struct Ctx {
     bool thorough() const { return tier == "thorough"; }
     bool replaying() const { return only >= 0; }
 
+    bool phase_on = true;   // development aid: --phases <substring> executes only the phases whose name contains it
     void phase(const std::string &name) {
-        end_phase();
+        end_phase(); phase_on = !opt.count("phases") || name.find(opt["phases"]) != std::string::npos;
         phase_ = name; phase_first = idx + 1; phase_exec = 0;
         strncpy(prog->phase, name.c_str(), sizeof(prog->phase) - 1);
     }
@@ -156,7 +157,7 @@ struct Ctx {
         idx++;
         bool mine;
         if (only >= 0) mine = (idx == only);
-        else mine = (idx % nshards == shard) && idx > resume_after;
+        else mine = (idx % nshards == shard) && idx > resume_after && phase_on;
         if (!mine) return false;
         prog->cur = idx;
         executed++; phase_exec++;
